@@ -5,6 +5,10 @@ ROOT = os.path.dirname(os.path.dirname(os.path.abspath(__file__)))
 
 # id -> (technique, level text, level note, design ref)
 CHECKS = {
+ "C04": ("model-based differential: generated inheritance chains (block trees, overrides, nested fresh blocks, super() in several positions, skipped levels) rendered from every template of the chain and block by block, against a reference resolver written from the definition; registration in a random permutation (one batch) and parents-first one by one must behave the same",
+         "Exploration: 24k generated chains of 1..7 templates (quick; x25 thorough, up to 13) with up to 10 blocks placed nested, inside filter sections, captured set blocks and component-call bodies; every template of the chain is an entry point for render and render_block of every known block (~170k render_block comparisons per quick run); bodies carry unique markers, assignments and observation points.",
+         "Trusted base: the reference resolver in harness/src/stmt.rs (lineage = definitions most-derived first; super() = next definition). Nested blocks introduced by overrides always get fresh names (no cyclic nesting via super(), finding F9); blocks executed more than once in a render are not judged by render_block.",
+         "DESIGN.md section 4 C04"),
  "C18": ("differential between output channels (render vs render_to into a Vec, a 1-byte writer, a short-write writer with interruptions) and fault enumeration of a failing writer (every byte offset, every write call) with the prefix invariant, for all four API variants; purity (repeatability, context equality); barrier-released thread stress against a sequential baseline; compile-time Send + Sync probe crate",
          "Fault enumeration + exploration: a fixed rich instance (inheritance with super(), nested blocks, block in a capture, includes 2 deep, components, failing templates) x 28 requests x 12 contexts and 120k generated C03 programs (quick; x20 thorough); every failure offset for outputs <= 400 bytes (sampled beyond) and every write call; 72k concurrent renders on 12 threads per quick run while clones are created, reconfigured and dropped.",
          "Trusted base: the three test writers in harness/src/props/c18.rs. Interleavings are sampled by the OS scheduler, not enumerated (rendering takes &self, per-render state lives in State); a data race needing a precise interleaving is out of reach of this technique. Send/Sync is a compile-time fact checked by building harness/probe.",
